@@ -1255,8 +1255,15 @@ func vf23Judge(t vfFataler, st *vfStats, c *vf23Case, res *vf23Result, rerun fun
 		return
 	}
 	st.Class("outcome:complete")
+	// a Close injected by the schedule ends the run without reading the events still queued: with the depth-first pump
+	// (one event per step) that can fall between QUICHandshakeDone and the 1-RTT read secret, so the "exactly once"
+	// part is only demanded of runs whose queue was read to the end
+	closedEarly := res.interrupted && (c.Fault == "close" || c.Fault == "srv-close")
+	if closedEarly {
+		st.Class("outcome:closed-by-schedule-after-completion")
+	}
 	for _, e := range []*vf23End{res.cli, res.srv} {
-		if msg := vf23CheckEvents(e, true); msg != "" {
+		if msg := vf23CheckEvents(e, !closedEarly); msg != "" {
 			st.Violation(t, "%s", msg)
 		}
 	}
@@ -1287,6 +1294,9 @@ func vf23Judge(t vfFataler, st *vfStats, c *vf23Case, res *vf23Result, rerun fun
 		if ev.Kind == QUICTransportParameters && !bytes.Equal(ev.Data, vf23RefTPBytes(c.TPs)) {
 			st.Violation(t, "server got transport parameters %x, client spec says %x", ev.Data, vf23RefTPBytes(c.TPs))
 		}
+	}
+	if closedEarly {
+		return // the event logs are prefixes: nothing more to compare
 	}
 	// secrets agree across the two peers
 	for _, l := range []QUICEncryptionLevel{QUICEncryptionLevelHandshake, QUICEncryptionLevelApplication} {
